@@ -132,6 +132,28 @@ func F_Ctx_One(ctx context.Context, a types.MalType) (types.MalType, error) {
 	enter("F_Ctx_One", ctx, true, a)
 	return res2("r")
 }
+// AppCtx is an embedder's own context type (a struct embedding context.Context); ExtCtx an interface extending it.
+type AppCtx struct {
+	context.Context
+	User string
+}
+
+type ExtCtx interface {
+	context.Context
+}
+
+func F_AppCtx_One(ctx AppCtx, a types.MalType) (types.MalType, error) {
+	enter("F_AppCtx_One", ctx, true, a)
+	return res2("r")
+}
+func F_ExtCtx_Var(ctx ExtCtx, xs ...types.MalType) (types.MalType, error) {
+	enter("F_ExtCtx_Var", ctx, true, xs...)
+	return res2("r")
+}
+
+// F_Ñu: an identifier with a capital letter outside ASCII (registered as f-ñu)
+func F_Ñu(a types.MalType) (types.MalType, error) { enter("F_Ñu", nil, false, a); return res2("r") }
+
 func F_Ctx_Int_Str(ctx context.Context, a int, b string) (types.MalType, error) {
 	enter("F_Ctx_Int_Str", ctx, true, a, b)
 	return res2(b)
@@ -177,6 +199,7 @@ var Catalogue = []struct {
 	Name string
 	Fn   any
 }{
+	{"F_AppCtx_One", F_AppCtx_One}, {"F_ExtCtx_Var", F_ExtCtx_Var}, {"F_Ñu", F_Ñu},
 	{"F_None", F_None}, {"F_One", F_One}, {"F_Two", F_Two}, {"F_Int", F_Int}, {"F_Str_Int", F_Str_Int}, {"F_Bool", F_Bool},
 	{"F_Map", F_Map}, {"F_List", F_List}, {"F_Var", F_Var}, {"F_Fix_Var", F_Fix_Var}, {"F_Var_Int", F_Var_Int}, {"F_Ctx", F_Ctx},
 	{"F_Ctx_One", F_Ctx_One}, {"F_Ctx_Int_Str", F_Ctx_Int_Str}, {"F_Ctx_Var", F_Ctx_Var}, {"F_Ctx_Fix_Var", F_Ctx_Fix_Var},
